@@ -402,7 +402,7 @@ Qed.
 
 Definition with_reaped (o : sm_obs) : sm_obs :=
   mkSmObs (o_outcome o) (o_kills o) (o_kills_after_exit o) (o_intr o) (o_stop o) (o_flag o) (o_alive o)
-          (o_timer_armed o) (o_timer_fired o) true (o_nout o) (o_nerr o).
+          (o_timer_armed o) (o_timer_fired o) true (o_nout o) (o_nerr o) (o_joins o).
 
 Definition guard08_narrow (c : cfg) (script : list ev) : bool :=
   (* F-C08a *) negb (c_start_fail c && c_pty c) &&
